@@ -6,8 +6,14 @@
   modelled (`BMat.pluqSolveLeft`) but its universal theorem is not proved (`…_partial`).
 -/
 import M4riProofs.Checkers
+import M4riProofs.GaussOK
 namespace M4ri.Props.C06
 open M4ri M4ri.BMat
+
+/-- the verdict oracle decides solvability of the padded system -/
+theorem verdict_oracle {A B : BMat} (hB : B.WF) (hBr : B.nrows = max A.nrows A.ncols) :
+    solvable A B = true ↔ ∃ X : BMat, X.WF ∧ X.nrows = A.ncols ∧ X.ncols = B.ncols ∧ (padRows A).mul X = B :=
+  GOK.solvable_iff hB hBr
 
 #check @M4ri.BMat.solvable_iff_rankCert
 #check @M4ri.BMat.solvable_spec'
